@@ -184,6 +184,22 @@ def check_bm_cast(ctx, k):
     ctx.expect(paths, ret=1)
 
 
+def check_bm_cell(ctx, k):
+    size = 1 << 32
+    b0 = ctx.sandbox_base(32, "b0", aligned=False)
+    cell = ctx.sym("cell", 64)
+    ctx.assume(z3.UGE(cell, b0), z3.ULE(cell - b0, BV(size - 4, 64)))
+    mem0 = ctx.eng.initial_memory()
+    rep = z3.Concat(*[z3.Select(mem0, cell + BV(i, 64)) for i in reversed(range(4))])
+    paths = ctx.run(k, [b0, cell])
+    for q in paths:
+        if q.status == "ret":
+            ctx.require(q, q.ret == z3.If(rep == 0, BV(0, 64), b0 + zext(rep, 64)),
+                        "a pointer to a function pointer read from sandbox memory is a data pointer: null or base + representation (inside the region)")
+    ctx.only(paths, "ret", "abort")
+    ctx.expect(paths, ret=1)
+
+
 def jobs(tier, seed):
     out = []
     backends = [("B32", 32)] + ([("B16", 16)] if tier == "thorough" else [])
@@ -207,6 +223,8 @@ def jobs(tier, seed):
     ssrc = '#include "verif_sandbox.hpp"\nusing S = B32S;\n#include "C03_small.inc"\n'
     out.append(Job("C03_B32S", ssrc, [dict(name="B32S " + k, fn=check_small, kw=dict(k=k)) for k in ("k_small_malloc_int", "k_small_malloc_vs24", "k_small_accept", "k_small_assign")],
                    native=False))
+    for k in ("k_bm_load_fnptrptr", "k_bm_cast_fnptrptr"):
+        out.append(Job("C03_BM_" + k, '#include "C03_bm.inc"\n', [dict(name="BM " + k, fn=check_bm_cell, kw=dict(k=k))], native=False))
     for k in ("k_bm_fn_to_data", "k_bm_data_to_data"):
         out.append(Job("C03_BM_" + k, '#include "C03_bm.inc"\n', [dict(name="BM " + k, fn=check_bm_cast, kw=dict(k=k), optional=(k == "k_bm_fn_to_data"))], native=False))
     return out
